@@ -157,8 +157,8 @@ func fatalTotality(c *ev.Collector, sig, detail string, input []byte, extra map[
 }
 
 // Per-case watchdog for the checks that do not run every library call under
-// guarded(): a generated case that keeps the library busy for caseLimit, or that
-// drives the live heap beyond caseHeapLimit, is a violation of the property the
+// guarded(): a generated case that keeps the library busy for caseLimit, or during
+// which the live heap grows by more than caseHeapLimit, is a violation of the property the
 // case belongs to (a value the property quantifies over cannot be built, encoded
 // or decoded in bounded time and memory) - provided a goroutine is found inside
 // library code. Otherwise the process ends as inconclusive (exit 2).
@@ -171,6 +171,7 @@ var caseWD struct {
 	once  sync.Once
 	mu    sync.Mutex
 	armed bool
+	seq   uint64
 	start time.Time
 	c     *ev.Collector
 }
@@ -178,24 +179,32 @@ var caseWD struct {
 func caseArm(c *ev.Collector) {
 	caseWD.once.Do(func() {
 		go func() {
+			var seenSeq, base uint64
 			for range time.Tick(250 * time.Millisecond) {
 				caseWD.mu.Lock()
-				armed, start, col := caseWD.armed, caseWD.start, caseWD.c
+				armed, seq, start, col := caseWD.armed, caseWD.seq, caseWD.start, caseWD.c
 				caseWD.mu.Unlock()
 				if !armed {
+					continue
+				}
+				if seq != seenSeq {
+					// first look at this case: its heap baseline (what the process holds already - rapid's
+					// state, the evidence collector, garbage not yet collected - is not the case's doing)
+					seenSeq, base = seq, liveHeap()
 					continue
 				}
 				switch {
 				case time.Since(start) > caseLimit:
 					caseTrip(col, "hang", fmt.Sprintf("a generated case has kept running for more than %s", caseLimit))
-				case liveHeap() > caseHeapLimit:
-					caseTrip(col, "heap", fmt.Sprintf("the live heap exceeded %d GiB during a generated case", caseHeapLimit>>30))
+				case liveHeap() > base+caseHeapLimit:
+					caseTrip(col, "heap", fmt.Sprintf("the live heap grew by more than %d GiB during one generated case", caseHeapLimit>>30))
 				}
 			}
 		}()
 	})
 	caseWD.mu.Lock()
 	caseWD.armed, caseWD.start, caseWD.c = true, time.Now(), c
+	caseWD.seq++
 	caseWD.mu.Unlock()
 }
 
